@@ -1,0 +1,35 @@
+//go:build verif
+
+package v2
+
+// Contracts for the deductive verifier in /verif (govc). Comment-only; compiled only with -tags verif.
+
+//@ import sdkmath cosmossdk.io/math
+
+// ---- C49 / C32: the IBC v2 transfer application debits only the signer, refunds only the original sender
+
+//@ contract (IBCModule).OnSendPacket
+//@   let data = nth(types.UnmarshalPacketData(payload.Value, payload.Version, payload.Encoding), 0)
+//@   let L0 = ledger(ctx)
+//@   modifies world(ctx)
+//@   ensures failed_unchanged: err != nil ==> world(ctx) == old(world(ctx))
+//@   ensures sender_is_signer: err == nil ==> bech32ok(data.Sender) && bech32dec(data.Sender) == str(signer)
+//@   ensures only_signer_debited: forall a string, x string :: err == nil && a != str(signer) ==> bal(ledger(ctx), a, x) >= bal(L0, a, x)
+//@   ensures transfer_port_only: err == nil ==> payload.SourcePort == types.PortID && payload.DestinationPort == types.PortID
+//@   ensures no_slash_in_base: err == nil ==> !contains(data.Token.Denom.Base, "/")
+
+//@ contract (IBCModule).OnTimeoutPacket
+//@   let data = nth(types.UnmarshalPacketData(payload.Value, payload.Version, payload.Encoding), 0)
+//@   let L0 = ledger(ctx)
+//@   modifies world(ctx)
+//@   ensures failed_unchanged: err != nil ==> world(ctx) == old(world(ctx))
+//@   ensures refund_on_source_client: err == nil && !data.Token.Denom.HasPrefix(payload.SourcePort, sourceChannel) ==> ledger(ctx) == ite(nth(sdkmath.NewIntFromString(data.Token.Amount), 0) == 0, L0, lmove(L0, str(types.GetEscrowAddress(payload.SourcePort, sourceChannel)), bech32dec(data.Sender), data.Token.Denom.IBCDenom(), nth(sdkmath.NewIntFromString(data.Token.Amount), 0)))
+//@   ensures only_original_sender_credited: forall a string, x string :: err == nil && a != bech32dec(data.Sender) ==> bal(ledger(ctx), a, x) <= bal(L0, a, x)
+
+//@ contract (IBCModule).OnAcknowledgementPacket
+//@   let data = nth(types.UnmarshalPacketData(payload.Value, payload.Version, payload.Encoding), 0)
+//@   let L0 = ledger(ctx)
+//@   modifies world(ctx)
+//@   ensures non_sentinel_ack_changes_nothing: str(acknowledgement) != str(channeltypesv2.ErrorAcknowledgement) ==> world(ctx) == old(world(ctx))
+//@   ensures failed_unchanged: err != nil ==> world(ctx) == old(world(ctx))
+//@   ensures only_original_sender_credited: forall a string, x string :: err == nil && a != bech32dec(data.Sender) ==> bal(ledger(ctx), a, x) <= bal(L0, a, x)
